@@ -82,6 +82,11 @@ CHECKS = {
         note="As C06; sqlite.datetime.now() replaced by arbitrary non-decreasing instants.",
         ref="§7 C18",
     ),
+    "C01": dict(
+        text="(a) exact arithmetic: an event with an arbitrary microsecond instant, symbolic UTC offset, duration and pooled JSON data is inserted (single / bulk) into memory and sqlite (SQL through the sqlite3 model) and z3 decides that listing and lookup return it with a unique id, instant floored to ms, duration and data equal; (b) ownership: every alias handed in or out (event, nested data, timestamp, duration, id, metadata dicts) is mutated and a second read must equal the first; (c) IEEE lemma: the real insert_one -> REAL/INTEGER cells -> _rows_to_events float pipeline is executed under the rounded-real encoding of double arithmetic for every millisecond instant and every microsecond duration, split into range pieces with a single binade per rounding: instant exact to the ms and duration exact to the us.",
+        note="Trusted: z3, the sqlite3 model (dual-run conformance), CPython's documented float algorithms. The IEEE lemma is decided for instants before 2038-01-19 only (2000..2038 quick, 1970..2038 thorough): beyond 2^31 s exactness depends on ties-to-even, where the coarse encoding yields non-reproducing candidates and the exact one does not finish — 2038..2100 is NOT decided for float fidelity (exact-arithmetic parts cover those dates). Peewee backend not covered by this check.",
+        ref="§4, §7 C01",
+    ),
 }
 
 NOT_YET = "check not built yet (work in progress; see DESIGN.md §7 for the plan)"
